@@ -32,7 +32,7 @@ ASSUMPTIONS = [
     "corpus files named in Tests/feaLib/builder_test.py TEST_FEATURE_FILES must parse and compile; other corpus files that "
     "feaLib rejects with FeatureLibError are negative tests and are skipped",
 ]
-REQUIRED_MONITORS = ["Parser.parse", "Builder.build", "asFea", "LookupBuilder.build", "Builder.buildLookups_"]
+REQUIRED_MONITORS = ["Parser.parse", "Builder.build", "asFea", "LookupBuilder.build", "Builder.buildLookups_", "writer-graph", "reparse"]
 CASE_TIMEOUT = 300
 MANIFEST = {
     "text": "Exploration. Grammar-generated feature files (glyph classes, single/multiple/alternate/ligature, contextual and chaining with inline rules, lookup references, ignore, reverse chaining, single/pair/class-pair/cursive/mark-to-base/-ligature/-mark positioning, contextual positioning, lookup blocks, lookupflags, script/language statements, subtable breaks, useExtension, named value records and anchors) are compiled by feaLib; HarfBuzz shapes witness, near-miss, ordering and random glyph sequences and must agree with a reference interpreter that reads only the rule-level model emitted by the generator. asFea(parse(P)) is checked to be a parse fixed point that compiles to byte-identical tables on all 163 corpus .fea files and on the generated programs. Tests cannot settle this because they compare compiler output with expectations produced by the same compiler and never execute the lookups.",
@@ -127,6 +127,11 @@ def setup():
     for cname, cls in sorted(vars(OB).items()):
         if isinstance(cls, type) and issubclass(cls, OB.LookupBuilder) and "build" in vars(cls) and cname != "AnySubstBuilder":
             hooks.attach(cls, "build", post=mk_post(cname), name="build:" + cname)
+    # every feature compile is also a serialisation: the C06 writer monitors (offset/graph
+    # integrity of the packed bytes, independent re-parse of GSUB/GPOS) run here too
+    from vmon.checks import c06
+
+    c06.attach_writer_monitors()
     _S["base"] = _base_font()
 
 
@@ -188,7 +193,7 @@ def cases(tier, seed):
                    "must": rel.startswith("feaLib/data/") and base in must})
     for name in FIXED:
         cs.append({"id": "gen:" + name, "kind": "fixed", "name": name, "seed": seed})
-    nb, per = (150, 20) if T else (36, 8)
+    nb, per = (320, 20) if T else (36, 8)
     for k in range(nb):
         level = 1 if k % 6 == 0 else 2 if k % 6 == 1 else 3
         cs.append({"id": "gen:l%d:%d" % (level, k), "kind": "gen", "level": level, "n": per, "seed": seed,
